@@ -925,15 +925,15 @@ func visibilityPackages() []*pkgSpec {
 
 // hotOrd: the derived Ord of a struct in HList representation (22 fields and more) goes through
 // ord.HCons, whose Less costs 2^k steps when the k-th field is the first that differs (each
-// level asks the next one twice); the deciding field is therefore put at positions 1, 21, 22
-// and at most 24 (2^24 steps, a fraction of a second), not at the 30th.
+// level asks the next one twice: about 10 s per comparison at k = 22, hours at k = 30). The
+// deciding field is therefore put at positions 1 and 22 for exactly 22 fields and at positions
+// 1, 12 and 16 for more; up to 21 fields (TupleN, linear) every position decides in turn.
 func hotOrd(t *target, n int) {
-	if t.TC == Ord && n >= 22 {
-		last := n
-		if last > 24 {
-			last = 24
-		}
-		t.Opt = fmt.Sprintf("lawlib.Opt{Hot: []int{1, 21, 22, %d}}", last)
+	switch {
+	case t.TC == Ord && n == 22:
+		t.Opt = "lawlib.Opt{Hot: []int{1, 22}}"
+	case t.TC == Ord && n > 22:
+		t.Opt = "lawlib.Opt{Hot: []int{1, 12, 16}}"
 	}
 }
 
